@@ -110,7 +110,7 @@ def _touches(funcs, attr, write):
     return False
 
 
-def _load_order(ctx, loader):
+def _load_order(ctx, loader, only=None, rule='C11.1'):
     index = ctx.index
     lm = loader.methods.get('load_model')
     ctx.require(lm is not None, 'Loader.load_model')
@@ -122,15 +122,17 @@ def _load_order(ctx, loader):
     graph = ctx.cfg(lm)
     straight = not [n for n in graph.nodes if n.kind in ('test', 'for',
                                                          'loop_head')]
-    ctx.ob('C11.1', lm, None, straight,
+    ctx.ob(rule, lm, None, straight,
            'load_model is a straight sequence of load steps',
            construct='load_model shape')
     for early, late, attr in _PRECEDENCE:
+        if only is not None and (early, late) not in only:
+            continue
         fe = index.find_method(loader, early)
         fl = index.find_method(loader, late)
         if fe is None or fl is None or early not in order or \
                 late not in order:
-            ctx.fail('C11.1', lm, None,
+            ctx.fail(rule, lm, None,
                      'load step %s or %s vanished from load_model' % (
                          early, late),
                      construct='%s before %s' % (early, late))
@@ -141,9 +143,9 @@ def _load_order(ctx, loader):
         reads = _touches(_closure(index, loader, fl), rattr, False)
         ctx.require(writes and reads,
                     'dependency %s -> %s through %s (writes=%s reads=%s)' % (
-                        early, late, attr, writes, reads), rule='C11.1')
+                        early, late, attr, writes, reads), rule=rule)
         ok = order.index(early) < order.index(late)
-        ctx.ob('C11.1', lm, None, ok,
+        ctx.ob(rule, lm, None, ok,
                '%s (writes %s) runs before %s (reads %s)' % (
                    early, attr, late, attr),
                construct='%s before %s' % (early, late))
@@ -567,10 +569,81 @@ def _nothing_else(ctx, loader, func):
            'node', construct='get_placed_apps')
 
 
+def _recorded_topology(ctx, loader):
+    """C11.1: the model a restart builds does not depend on the order of a
+    listing or on which step ran first: a bucket is attached to the parent
+    its record names on every path (the parent is loaded on demand), and a
+    server carries the partition its record names (the default only when
+    the record names none) - a placement recorded under a server is
+    restored only if that server sits in the cell under the right
+    partition."""
+    lb = loader.methods.get('load_bucket')
+    ctx.require(lb is not None, 'Loader.load_bucket', rule='C11.1')
+    graph = ctx.cfg(lb)
+    nz = N.Normaliser()
+    defs = M.local_defs(lb)
+    parents = set(name for name, vals in defs.items() if any(
+        isinstance(v, ast.Call) and K.is_meth(v, 'get') and v.args and
+        isinstance(v.args[0], ast.Constant) and v.args[0].value == 'parent'
+        for v in vals))
+    named = [e for n in graph.nodes if n.kind == 'test' for e in n.succ
+             if any(a.key[0] == 'truth' and a.key[2] and a.key[1] in parents
+                    for a in nz.facts_of_edge(e))]
+    ctx.require(named, 'test of the recorded parent in load_bucket',
+                rule='C11.1', func=lb)
+
+    def attaches(node):
+        return any(K.is_meth(c, 'add_node') for c in C.node_calls(node))
+    for edge in named:
+        skip = None if attaches(edge.dst) else K.find_path(
+            edge.dst, [graph.exit], cut_node=attaches, follow_exc=False)
+        if edge.dst is graph.exit:
+            skip = [edge]
+        ctx.ob('C11.1', lb, edge.src, skip is None,
+               'a bucket whose record names a parent is attached to it on '
+               'every path', path=K.describe(skip) if skip else None,
+               construct='bucket attached to its recorded parent')
+    cs = loader.methods.get('create_server')
+    ctx.require(cs is not None, 'Loader.create_server', rule='C11.1')
+    cgraph = ctx.cfg(cs)
+    ctors = [c for c in K.calls(cs.node)
+             if K.callee_text(c).endswith('Server')]
+    ctx.require(ctors, 'Server constructor in create_server', rule='C11.1',
+                func=cs)
+    lab = K.kwarg(ctors[0], 'label')
+    ctx.require(isinstance(lab, ast.Name), 'partition label local of '
+                'create_server', rule='C11.1', func=cs)
+    facts = N.must_facts(cgraph, nz)
+
+    def recorded(expr):
+        return isinstance(expr, ast.Call) and K.is_meth(expr, 'get') and \
+            expr.args and isinstance(expr.args[0], ast.Constant) and \
+            expr.args[0].value == 'partition'
+    seen = 0
+    for node in cgraph.nodes:
+        if not (node.kind == 'stmt' and isinstance(node.ast, ast.Assign) and
+                len(node.ast.targets) == 1 and
+                N.txt(node.ast.targets[0]) == lab.id):
+            continue
+        val = node.ast.value
+        seen += 1
+        ok = recorded(val) or (
+            isinstance(val, ast.BoolOp) and isinstance(val.op, ast.Or) and
+            recorded(val.values[0])) or any(
+                f.key == ('truth', lab.id, False) for f in facts[node])
+        ctx.ob('C11.1', cs, node, ok,
+               'the partition of a server is the recorded one; another value '
+               'only when the record names none (%s)' % N.txt(node.ast),
+               construct='recorded partition kept')
+    ctx.require(seen >= 1, 'assignment of the partition label in '
+                'create_server', rule='C11.1', func=cs)
+
+
 def check(ctx):
     loader = ctx.index.get_class(K.LOADER, 'Loader')
     master = ctx.index.get_class(K.MASTER, 'Master')
     _load_order(ctx, loader)
+    _recorded_topology(ctx, loader)
     _load_everything(ctx, loader)
     found = _verbatim(ctx, loader)
     if found is None:
